@@ -15,9 +15,7 @@ __CPROVER_requires(midCh < g_play.m_midiChannels_size)      /* a wrong guard in 
 __CPROVER_assigns(g_update_calls)
 __CPROVER_ensures(g_update_calls == __CPROVER_old(g_update_calls) + 1);
 
-/* ---------------- specification of "well-formed, correctly addressed" (statement of C19) --------------- */
-typedef enum { SX_NONE = 0, SX_GM_ON, SX_GM_OFF, SX_MASTER_VOLUME, SX_GS_SYSTEM_MODE, SX_GS_MODE, SX_GS_DRUM_PART, SX_XG_ON } sysex_kind;
-
+#include "sysex_spec.h"
 extern uint8_t in_msg[64];   /* ghost copy of the message bytes, so that a counterexample names its input */
 static bool spec_bytes_named(const uint8_t *msg, size_t size)
 {
@@ -27,80 +25,21 @@ static bool spec_bytes_named(const uint8_t *msg, size_t size)
     return ok;
 }
 
-/* Roland checksum over address and data bytes msg[5..8] */
-#define SPEC_ROLAND_SUM_OK(m) ((((unsigned)((m)[5] & 0x7F) + ((m)[6] & 0x7F) + ((m)[7] & 0x7F) + ((m)[8] & 0x7F) + ((m)[9] & 0x7F)) & 127u) == 0u)
-
-/* NECESSARY conditions: a message may take effect only if this is not SX_NONE.  Addressing is the statement's
- * "this device id or the broadcast id"; exact lengths; Roland checksum. (7-bit payload bytes are compared
- * after masking, as a receiver that ignores the status bit does.) */
-static sysex_kind spec_sysex_kind(const uint8_t *m, size_t size, uint8_t devid)
+/* "No channel state changed": ghost g_chan_before is the pre-state of channel SPEC_CH (tied by a precondition) and the
+ * clause says channel SPEC_CH still equals it, by the typed field-wise equality generated from the extracted struct.
+ * SPEC_CH is a compile-time constant; the obligation group is instantiated once for every channel of the table
+ * (a symbolic channel index, and also one query over all 16 channels, made CBMC's array reasoning intractable -
+ * measured: 1 channel 20 s, 4 channels 115 s, 16 channels no answer). */
+#ifdef SPEC_CH
+extern MIDIchannel g_chan_before;
+#define SPEC_CHAN_SAME spec_MIDIchannel_eq(&g_midiChannels_storage[SPEC_CH], &g_chan_before)
+static bool spec_chan_same_but_drum_flag(void)
 {
-    if(size < 6 || m[0] != 0xF0 || m[size - 1] != 0xF7)
-        return SX_NONE;
-    unsigned man = m[1], dev = m[2];
-    if(man == 0x7E || man == 0x7F)
-    {
-        if(!(dev == 0x7F || dev == devid)) return SX_NONE;
-        unsigned s1 = m[3] & 0x7F, s2 = m[4] & 0x7F;
-        if(man == 0x7E && s1 == 0x09 && s2 == 0x01 && size == 6) return SX_GM_ON;
-        if(man == 0x7E && s1 == 0x09 && s2 == 0x02 && size == 6) return SX_GM_OFF;
-        if(man == 0x7F && s1 == 0x04 && s2 == 0x01 && size == 8) return SX_MASTER_VOLUME;
-        return SX_NONE;
-    }
-    if(man == 0x41)
-    {
-        if(!(dev == 0x7F || (dev & 0x0F) == devid)) return SX_NONE;
-        if(size != 11) return SX_NONE;
-        if((m[3] & 0x7F) != 0x42 || (m[4] & 0x7F) != 0x12) return SX_NONE;
-        if(!SPEC_ROLAND_SUM_OK(m)) return SX_NONE;
-        unsigned a0 = m[5] & 0x7F, a1 = m[6] & 0x7F, a2 = m[7] & 0x7F;
-        if(a0 == 0x00 && a1 == 0x00 && a2 == 0x7F) return SX_GS_SYSTEM_MODE;
-        if(a0 == 0x40 && a1 == 0x00 && a2 == 0x7F) return SX_GS_MODE;
-        if(a0 == 0x40 && (a1 & 0x70) == 0x10 && a2 == 0x15) return SX_GS_DRUM_PART;
-        return SX_NONE;
-    }
-    if(man == 0x43)
-    {
-        if(!(dev == 0x7F || (dev & 0x0F) == devid)) return SX_NONE;
-        if(size != 9) return SX_NONE;
-        if((m[3] & 0x7F) != 0x4C) return SX_NONE;
-        if((m[4] & 0x7F) == 0x00 && (m[5] & 0x7F) == 0x00 && (m[6] & 0x7F) == 0x7E) return SX_XG_ON;
-        return SX_NONE;
-    }
-    return SX_NONE;
+    MIDIchannel t = g_chan_before;
+    t.is_xg_percussion = g_midiChannels_storage[SPEC_CH].is_xg_percussion;
+    return spec_MIDIchannel_eq(&g_midiChannels_storage[SPEC_CH], &t);
 }
-
-/* SUFFICIENT conditions: the documented messages, clean 7-bit payload, addressed to the instance's own id
- * (Roland/Yamaha: device byte 0x10|id).  These must be accepted. */
-static bool spec_sysex_strict(const uint8_t *m, size_t size, uint8_t devid)
-{
-    sysex_kind k = spec_sysex_kind(m, size, devid);
-    if(k == SX_NONE || devid > 0x0F) return false;
-    bool clean = true;
-    for(size_t i = 1; i + 1 < 64; i++)
-        clean = clean && (i + 1 >= size || m[i] < 0x80);
-    if(!clean) return false;
-    if(k == SX_GM_ON || k == SX_GM_OFF || k == SX_MASTER_VOLUME) return m[2] == devid || m[2] == 0x7F;
-    return m[2] == (0x10 | devid);
-}
-
-/* ghost snapshot of the whole channel table (tied to the pre-state by a precondition).  The comparison walks the
- * table with constant indices (a symbolic channel index made the array reasoning intractable - measured) and uses
- * the typed field-wise equality generated from the extracted struct (verif_types.h). */
-extern MIDIchannel g_table_before[ENV_N_MIDI_CHANNELS];
-static bool spec_table_same_except_drum_flag_of(size_t except_ch)   /* ENV_N_MIDI_CHANNELS = no exception */
-{
-    bool ok = true;
-    for(size_t k = 0; k < ENV_N_MIDI_CHANNELS; k++)
-    {
-        MIDIchannel t = g_table_before[k];
-        if(k == except_ch)
-            t.is_xg_percussion = g_midiChannels_storage[k].is_xg_percussion;
-        ok = ok && spec_MIDIchannel_eq(&g_midiChannels_storage[k], &t);
-    }
-    return ok;
-}
-#define SPEC_TABLE_SAME spec_table_same_except_drum_flag_of(ENV_N_MIDI_CHANNELS)
+#endif
 
 static const uint8_t spec_gs_part_to_channel[16] = { 9, 0, 1, 2, 3, 4, 5, 6, 7, 8, 10, 11, 12, 13, 14, 15 };
 
@@ -110,35 +49,47 @@ static const uint8_t spec_gs_part_to_channel[16] = { 9, 0, 1, 2, 3, 4, 5, 6, 7, 
 bool realTime_SysEx(const uint8_t *msg, size_t size)
 __CPROVER_requires(size <= 64 && __CPROVER_is_fresh(msg, size) && spec_bytes_named(msg, size))
 __CPROVER_requires(ENV_CHANNELS_OK && ENV_SYNTH_OK && ENV_HOOKS_OK)
-/* ghost: g_ch ranges over all channels, g_chan_before is the pre-state of that channel */
-__CPROVER_requires(SPEC_TABLE_SAME)
 __CPROVER_assigns(g_play.m_synthMode, g_reset_calls, g_update_calls, g_midiChannels_storage)
-__CPROVER_assigns(g_play.m_synth != NULL : g_play.m_synth->m_masterVolume)
+__CPROVER_assigns(g_synth.m_masterVolume)
+#ifndef SPEC_CH
+#if SPEC_PART == 1
 /* only if: accepted => well-formed, addressed, exact length, checksum */
 __CPROVER_ensures(__CPROVER_return_value ==> SX_KIND != SX_NONE)
 /* if: the documented messages addressed to this instance are accepted */
 __CPROVER_ensures(spec_sysex_strict(msg, size, __CPROVER_old(g_play.m_sysExDeviceId)) ==> __CPROVER_return_value)
-/* rejected => mode, master volume, every field of every channel's state, notes (no reset, no update) untouched */
+#elif SPEC_PART == 2
+/* rejected => mode, master volume, notes (no reset, no update of any channel) untouched; channel state: SPEC_CH groups */
 __CPROVER_ensures(!__CPROVER_return_value ==>
     (g_play.m_synthMode == __CPROVER_old(g_play.m_synthMode) && g_reset_calls == __CPROVER_old(g_reset_calls) &&
-     g_update_calls == __CPROVER_old(g_update_calls) &&
-     SPEC_TABLE_SAME))
-__CPROVER_ensures(!__CPROVER_return_value && g_play.m_synth != NULL ==> g_play.m_synth->m_masterVolume == __CPROVER_old(g_play.m_synth->m_masterVolume))
+     g_update_calls == __CPROVER_old(g_update_calls)))
+/* (m_synth is NULL or &g_synth by precondition: the synth object is named directly) */
+__CPROVER_ensures(!__CPROVER_return_value ==> g_synth.m_masterVolume == __CPROVER_old(g_synth.m_masterVolume))
+#elif SPEC_PART == 3 || SPEC_PART == 4
 /* accepted => documented effect */
+#if SPEC_PART == 3
 __CPROVER_ensures(__CPROVER_return_value && SX_KIND == SX_GM_ON ==> g_play.m_synthMode == Mode_GM)
 __CPROVER_ensures(__CPROVER_return_value && (SX_KIND == SX_GS_MODE || SX_KIND == SX_GS_SYSTEM_MODE) ==> g_play.m_synthMode == Mode_GS)
 __CPROVER_ensures(__CPROVER_return_value && SX_KIND == SX_XG_ON ==> g_play.m_synthMode == Mode_XG)
 __CPROVER_ensures(__CPROVER_return_value && SX_IS_MODE_MSG(SX_KIND) ==> g_reset_calls == __CPROVER_old(g_reset_calls) + 1)
 __CPROVER_ensures(__CPROVER_return_value && !SX_IS_MODE_MSG(SX_KIND) ==>
                   (g_reset_calls == __CPROVER_old(g_reset_calls) && g_play.m_synthMode == __CPROVER_old(g_play.m_synthMode)))
+#endif
+#if SPEC_PART == 4
 __CPROVER_ensures(__CPROVER_return_value && SX_KIND == SX_MASTER_VOLUME && g_play.m_synth != NULL ==>
-                  g_play.m_synth->m_masterVolume == (msg[6] & 0x7F))
-__CPROVER_ensures(__CPROVER_return_value && SX_KIND == SX_MASTER_VOLUME ==>
-                  SPEC_TABLE_SAME)
+                  g_synth.m_masterVolume == (msg[6] & 0x7F))
+__CPROVER_ensures(__CPROVER_return_value && SX_KIND != SX_MASTER_VOLUME ==> g_synth.m_masterVolume == __CPROVER_old(g_synth.m_masterVolume))
+#endif
+#endif
+#else
+/* channel SPEC_CH: rejected => every field unchanged; master volume => unchanged; drum-part => at most its own flag */
+__CPROVER_requires(SPEC_CHAN_SAME)
+__CPROVER_ensures(!__CPROVER_return_value ==> SPEC_CHAN_SAME)
+__CPROVER_ensures(__CPROVER_return_value && SX_KIND == SX_MASTER_VOLUME ==> SPEC_CHAN_SAME)
 __CPROVER_ensures(__CPROVER_return_value && SX_KIND == SX_GS_DRUM_PART ==>
-                  g_play.m_midiChannels[spec_gs_part_to_channel[msg[6] & 0x0F]].is_xg_percussion == ((msg[8] & 0x7F) == 1 || (msg[8] & 0x7F) == 2))
-/* ... and the drum-part message changes that one flag only */
-__CPROVER_ensures(__CPROVER_return_value && SX_KIND == SX_GS_DRUM_PART ==>
-                  spec_table_same_except_drum_flag_of(spec_gs_part_to_channel[msg[6] & 0x0F]))
+                  (SPEC_CH == spec_gs_part_to_channel[msg[6] & 0x0F] ? spec_chan_same_but_drum_flag() : SPEC_CHAN_SAME))
+/* drum-part message addressed to the part that maps to this channel sets this channel's flag from the data byte */
+__CPROVER_ensures(__CPROVER_return_value && SX_KIND == SX_GS_DRUM_PART && SPEC_CH == spec_gs_part_to_channel[msg[6] & 0x0F] ==>
+                  g_midiChannels_storage[SPEC_CH].is_xg_percussion == ((msg[8] & 0x7F) == 1 || (msg[8] & 0x7F) == 2))
+#endif
 ;
 #endif
